@@ -26,6 +26,10 @@ theorem op_micro_target (n : Nat) (op : Op γ) (t : Nat) (hlt : t < n)
   intro m hm
   cases op with
   | extIds l => simp only [Op.micro, List.mem_singleton] at hm; subst hm; simp [Micro.target]
+  | read pre =>
+    simp only [Op.micro, List.mem_map] at hm
+    obtain ⟨p, _, rfl⟩ := hm
+    right; rfl
   | inplace r bs =>
     left
     rw [bodiesMicro_target r bs m hm]
@@ -266,6 +270,15 @@ theorem obs_holds_new {h : Heap γ} (s : Sep h) (op : Op γ) (poke : List (Body 
     · simp [obsOp, snaps_length]
     · simp only [obsOp, beq_iff_eq]; exact e2
     · simp only [obsOp, beq_iff_eq]; exact i2
+  | read pre =>
+    apply holds_of_new
+    · rfl
+    · simp only [obsOp, beq_iff_eq]; exact e1
+    · simp only [obsOp, beq_iff_eq]; exact i1
+    · simp [obsOp, snaps_length]
+    · simp [obsOp, snaps_length]
+    · simp only [obsOp, beq_iff_eq]; exact e2
+    · simp only [obsOp, beq_iff_eq]; exact i2
   | new pre srcs F os ss post =>
     apply holds_of_new
     · rfl
@@ -280,6 +293,7 @@ theorem obsOp_inv {h : Heap γ} (s : Inv h) (op : Op γ) (poke : List (Body γ))
   cases op with
   | inplace r bs => exact stepOp_inv s _
   | extIds l => exact stepOp_inv (stepOp_inv s _) _
+  | read pre => exact stepOp_inv (stepOp_inv s _) _
   | new pre srcs F os ss post => exact stepOp_inv (stepOp_inv s _) _
 
 /-- **model_holds**: the declarative predicate is true of the model's observation of every call of
@@ -300,6 +314,7 @@ theorem model_holds {h : Heap γ} (i : Inv h) (calls : List (Op γ × List (Body
       simp only [okCall, decide_eq_true_eq] at hk
       exact obs_holds_inplace i r bs poke h.objs[r] (by simp [hk])
     | extIds l => exact obs_holds_new i.1 _ poke (fun _ _ e => by cases e)
+    | read pre => exact obs_holds_new i.1 _ poke (fun _ _ e => by cases e)
     | new pre srcs F os ss post => exact obs_holds_new i.1 _ poke (fun _ _ e => by cases e)
 
 /-- every history that starts from nothing (all prior histories, every layout they lead to) -/
